@@ -42,6 +42,16 @@ def cases(draw, tier):
         if draw(st.integers(0, 4)) == 0:
             step = {'op': 'until', 'name': 'U%d' % i, 'notif': ['delay', draw(st.sampled_from([0.5, 1, 2, 3, 5]))],
                     'children': [], 'body': [step]}
+        if draw(st.integers(0, 5)) == 0 and not floaty and op == 'interval' and p > 0:
+            # an until() block that is left by the ticker's own IntervalExceeded (handled outside), followed by
+            # another ticker that is still running when that block's notification would have fired
+            d0 = abs(p) + 1
+            step = {'op': 'try', 'body': [{'op': 'until', 'name': 'X%d' % i, 'notif': ['delay', d0 + draw(st.sampled_from([1, 2, 3]))],
+                                           'children': [], 'body': [{'op': 'interval', 'p': p, 'durs': [d0], 'propagate': True}]}]}
+            steps.append(step)
+            steps.append({'op': draw(st.sampled_from(['interval', 'delay'])), 'p': draw(st.sampled_from([0.5, 1, 2])),
+                          'durs': [None, 0, 0.25, None, 0, None, 0.25, None]})
+            return {'name': 'k%d' % i, 'steps': steps}
         steps.append(step)
         if draw(st.integers(0, 3)) == 0:
             steps.append({'op': draw(st.sampled_from(['interval', 'delay'])), 'p': draw(st.sampled_from(PERIODS)),
